@@ -817,7 +817,9 @@ func lazyTagCase(c *Case) Verdict {
 		return Skipped(Viol("no-completion", "", "%s", endDesc(inc)))
 	}
 	root := inc.Sim.FS.Root
-	for p, e := range WorkFiles(root) {
+	wf6 := WorkFiles(root)
+	for _, p := range sortedKeys(wf6) {
+		e := wf6[p]
 		if e.Kind != simrt.KFile || !strings.HasSuffix(p, ".use0.o0") {
 			continue
 		}
@@ -934,7 +936,9 @@ func conflictingTagCase(c *Case) Verdict {
 	}
 	// completed: the records of the files made downstream of both taggers must
 	// hold both attached values (out-IPs inherit the tags of their in-IPs)
-	for pth, e := range WorkFiles(inc.Sim.FS.Root) {
+	wf7 := WorkFiles(inc.Sim.FS.Root)
+	for _, pth := range sortedKeys(wf7) {
+		e := wf7[pth]
 		if e.Kind != simrt.KFile || !strings.HasSuffix(pth, ".use.o0.audit.json") {
 			continue
 		}
@@ -1006,7 +1010,9 @@ func siblingTaggerCase(c *Case) Verdict {
 	if v := taggedOnDiskOracle(root, ex); v.Status != "ok" {
 		return v
 	}
-	for p, e := range WorkFiles(root) {
+	wf8 := WorkFiles(root)
+	for _, p := range sortedKeys(wf8) {
+		e := wf8[p]
 		if e.Kind != simrt.KFile || !strings.Contains(baseName(p), ".use") || strings.HasSuffix(p, ".audit.json") {
 			continue
 		}
